@@ -11,6 +11,7 @@ CONSTANTS
   BlockSize = 8
   Pos <- MCPos
   TheRepo = "r1"
-  Contents <- MCSmallAll
-INVARIANTS PTypeOK TypeOK PassBound SubjectFirst OnlyGrounded AllBeforePush OutcomeAgrees NeverRefused NothingUntilComplete CatAgrees NextPushAcceptable TagPushAcceptable FinalExact TagErrorLeaves OtherReposUntouched
-PROPERTIES Terminates FailedCallStoresNothing
+  Contents <- MCContents
+  SpaceSel = "all3"
+INVARIANTS PTypeOK TypeOK PassBound MeasureNat SubjectFirst OnlyGrounded AllBeforePush OutcomeAgrees NeverRefused NothingUntilComplete CatAgrees NextPushAcceptable TagPushAcceptable FinalExact TagErrorLeaves OtherReposUntouched
+PROPERTIES Decreases FailedCallStoresNothing
